@@ -32,7 +32,7 @@ Inductive case :=
                                                  heartbeats dropped), then OClosed at EOF *)
        (enq : Z)                              (* sum of topic message_count, after minus before *)
        (alive bystander : bool)
-       (intent : option (list (N * Z))).      (* generator's commands: (index in all_cmds, messages) *)
+       (intent : option (list (N * Z * bool))). (* generator's commands: (index in all_cmds, messages, within limits) *)
 
 Definition mk_cfg (max_msg max_body max_rdy : Z) (deflate_on snappy_on tls_on tls_required : bool) : cfg :=
   let d := default_cfg max_msg max_body max_rdy in
@@ -131,31 +131,53 @@ Definition one_frame (c : cmd) : bool :=
 Definition is_publish (c : cmd) : bool :=
   match c with CPub | CMpub | CDpub => true | _ => false end.
 
-(* messages of the publishes among the first [m] one-frame commands; None = fewer than
-   [m] one-frame commands were sent (an answer without a question) *)
-Fixpoint expected_enq (m : nat) (intent : list (N * Z)) : option Z :=
+(* The recording tells how many one-frame commands were answered without an error: [m]
+   response frames, so the first [m] one-frame commands of the stream were accepted, and
+   every command in front of the [m]-th of them was executed without a fatal error (a
+   fatal error ends the connection).  [walk] replays that prefix against the protocol
+   TABLE (ProtoSpec.in_state / next_kind) and the generator's statement of which commands
+   are within the limits: it returns whether every executed command was acceptable, and
+   the number of messages the accepted publishes carry.  None = fewer than [m] one-frame
+   commands were sent (an answer without a question). *)
+Definition limited (c : cmd) : bool :=
+  match c with CIdentify | CSub | CPub | CMpub | CDpub => true | _ => false end.
+
+Fixpoint walk (tlsreq : bool) (m : nat) (k : skind) (intent : list (N * Z * bool)) : option (bool * Z) :=
   match m with
-  | O => Some 0
+  | O => Some (true, 0)
   | S m' =>
     match intent with
     | [] => None
-    | (ci, k) :: r =>
+    | (ci, n, valid) :: r =>
       let c := cmd_at ci in
       if one_frame c then
-        match expected_enq m' r with
-        | Some s => Some (if is_publish c then s + k else s)
+        match walk tlsreq m' (next_kind c k) r with
+        | Some (ok, s) =>
+            Some (ok && in_state c k && (valid || negb (limited c))
+                     && (negb tlsreq || match c with CIdentify => true | _ => false end)
+                     && negb (match c with CAuth => true | _ => false end),
+                  if is_publish c then s + n else s)
         | None => None
         end
-      else expected_enq m r
+      else
+        match walk tlsreq m k r with
+        | Some (ok, s) =>
+            Some (ok && in_state c k && negb tlsreq
+                     && match c, k with
+                        | CRdy, SSubscribed => valid       (* after CLS a RDY is ignored *)
+                        | _, _ => true
+                        end, s)
+        | None => None
+        end
     end
   end.
 
 (* the commands that can have produced the fatal error: those after the [m]-th one-frame
    command up to and including the next one-frame command *)
-Fixpoint window (m : nat) (intent : list (N * Z)) : list cmd :=
+Fixpoint window (m : nat) (intent : list (N * Z * bool)) : list cmd :=
   match intent with
   | [] => []
-  | (ci, _) :: r =>
+  | (ci, _, _) :: r =>
     let c := cmd_at ci in
     match m with
     | O => if one_frame c then [c] else c :: window O r
@@ -165,7 +187,7 @@ Fixpoint window (m : nat) (intent : list (N * Z)) : list cmd :=
 
 Definition code_in (c : code) (l : list code) : bool := existsb (code_eqb c) l.
 
-Definition code_allowed (tlsreq : bool) (intent : option (list (N * Z))) (m : nat) (i : N) : bool :=
+Definition code_allowed (tlsreq : bool) (intent : option (list (N * Z * bool))) (m : nat) (i : N) : bool :=
   match code_at i with
   | None => false
   | Some c =>
@@ -175,7 +197,7 @@ Definition code_allowed (tlsreq : bool) (intent : option (list (N * Z))) (m : na
       code_eqb c E_INVALID || code_eqb c E_BAD_PROTOCOL ||
       if is_fatal c
       then existsb (fun k => code_in c (may_return_gated tlsreq k)) (window m l)
-      else existsb (fun e => code_in c (may_return (cmd_at (fst e)))) l
+      else existsb (fun e => code_in c (may_return (cmd_at (fst (fst e))))) l
     end
   end.
 
@@ -192,8 +214,16 @@ Fixpoint shape_ok (fs : list oframe) : bool :=
   | OResp _ :: r => shape_ok r
   end.
 
+Definition ends_closed (fs : list oframe) : bool :=
+  match rev fs with OClosed :: _ => true | _ => false end.
+Definition has_fatal (fs : list oframe) : bool :=
+  existsb (fun f => match f with
+                    | OErr i => match code_at i with Some c => is_fatal c | None => true end
+                    | _ => false
+                    end) fs.
+
 Definition monitor (cf : cfg) (frames : list oframe) (enq : Z) (alive bystander : bool)
-           (intent : option (list (N * Z))) : bool :=
+           (intent : option (list (N * Z * bool))) : bool :=
   let m := n_ok frames in
   alive && bystander
   && shape_ok frames
@@ -201,7 +231,12 @@ Definition monitor (cf : cfg) (frames : list oframe) (enq : Z) (alive bystander 
   && (if (m =? 0)%nat then enq =? 0 else 0 <=? enq)
   && match intent with
      | None => true
-     | Some l => match expected_enq m l with Some s => enq =? s | None => false end
+     | Some l =>
+       match walk (c_tls_required cf) m SInit l with Some (ok, s) => ok && (enq =? s) | None => false end
+       (* every command gets its answer: a connection that was closed without a fatal error
+          frame has answered every one-frame command it was sent *)
+       && (if ends_closed frames && negb (has_fatal frames)
+           then (m =? length (filter (fun e => one_frame (cmd_at (fst (fst e)))) l))%nat else true)
      end.
 
 Definition judge (c : case) : N :=
